@@ -562,6 +562,12 @@ def parse_options_header(value: str | None) -> tuple[str, dict[str, str]]:
         if match:
             # key*0=a; key*1=b becomes key=ab
             pk = pk[: match.start()]
+
+        if not pk:
+            # *=a or *0=a has no key, skip this invalid part
+            continue
+
+        if match:
             options[pk] = options.get(pk, "") + pv
         else:
             options[pk] = pv
